@@ -349,6 +349,24 @@ fn case(bytes: &[u8], col: &mut Collector) -> Result<(), Failure> {
                 }
                 col.class("point:multiples-beyond-r");
             }
+            // what is admitted as a group element must be on the curve: (x, y+1) in either encoding
+            // mode is refused by the validating decoders
+            if ch.chance(90) {
+                use ark_serialize::{CanonicalDeserialize, CanonicalSerialize};
+                let bad = ZorroG::new_unchecked(p.x, p.y + Fq::one());
+                if !on_curve(&big(&bad.x), &big(&bad.y), &a, &b, &q) {
+                    let mut u = vec![];
+                    bad.serialize_uncompressed(&mut u).unwrap();
+                    let dec = ZorroG::deserialize_uncompressed(&u[..]);
+                    if dec.is_ok() {
+                        return Err(Failure::new("C14:off-curve-point-admitted", "the validating decoder admits (x, y+1), which does not satisfy the curve equation, as a group element", json!({"x": px.to_string(), "y": big(&bad.y).to_string()})));
+                    }
+                    if bad.is_on_curve() {
+                        return Err(Failure::new("C14:is_on_curve", "is_on_curve() holds for a point that does not satisfy the declared equation", json!({"x": px.to_string(), "y": big(&bad.y).to_string()})));
+                    }
+                    col.class("point:off-curve-refused");
+                }
+            }
             col.class(if from_x { "point:from-random-x" } else { "point:k*G" });
             col.nontrivial(fp_of(&("pt", px.to_string())));
             col.sample(true, || json!({"point_x": px.to_string(), "r_times_P": "identity"}));
